@@ -7,7 +7,7 @@ import PilotaModel.Lemmas.IdlExt
   compared individually (verb `idl-parse <kind>`).
 
   Panic sites of the Rust (and of the nom combinators it calls) that the model carries as explicit
-  `.panic` branches: `IntConstant(-d.0)` (debug-build overflow, constant.rs:131),
+  `.panic` branches: `IntConstant(-d.0)` (debug-build overflow, constant.rs),
   `escaped`'s `iter_elements().next().unwrap()`, `tag_no_case`'s byte-offset `take_split`.
   `map_res` conversions (`i64::from_str`, `from_str_radix`, `parse::<i32>`) are error branches.
 -/
@@ -33,20 +33,20 @@ of the input, and the budget `d` is exhausted only by inputs with at least `d` n
 theorem subparsers_total (d : Nat) :
     Good d (Item.parse d) ∧ Good d (Type.parse d) ∧ Good d (ConstValue.parse d) ∧ Good d (Field.parse d) ∧
     Good d (Function.parse d) ∧ Good d Ident.parse ∧ Good d Path.parse ∧ Good d Literal.parse ∧
-    Good d Annotations.parse ∧ Good d (IntConstant.parse d) ∧ Good d (DoubleConstant.parse d) :=
+    Good d Annotations.parse ∧ Good d IntConstant.parse ∧ Good d DoubleConstant.parse :=
   ⟨good_item d, good_type d, good_constValue d, good_field d, good_function d, good_ident, good_path,
-   good_literal, good_annotations, good_intConstant d, good_doubleConstant d⟩
+   good_literal, good_annotations, good_intConstant, good_doubleConstant⟩
 
 /-- Call depth.  `File.parseD d` is the parser with at most `d` nested recursive frames of
-`Ty::parse` / `ConstValue::parse` / `IntConstant::parse`.  `d` frames suffice for every text with
-fewer than `d` nesting characters (`<`, `[`, `{`, `-`), and then the answer is `File::parse`'s.
+`Ty::parse` / `ConstValue::parse` (the only recursive parsers since fix 4f1981f).  `d` frames suffice
+for every text with fewer than `d` opening brackets (`<`, `[`, `{`), and then the answer is
+`File::parse`'s.
 
-PARTIAL with respect to the property's wording: the bound is in the NUMBER of opening brackets
-and minus signs, not in the bracket nesting depth (for the nesting ladders the two coincide), and
-the 2 MiB clause is frames × frame size, which only the harness can measure (C16 stream, ladders
-1..64 / 128 on a 2 MiB thread).  Full statement not proved:
-  `callDepth (File.parse s) ≤ k * bracketNesting s + k0` — false as it stands, see
-  `minus_chain_depth_counterexample`. -/
+PARTIAL with respect to the property's wording in two respects: the bound is in the NUMBER of
+opening brackets, which dominates the bracket nesting depth (for the nesting ladders the two
+coincide; a bound in the true nesting depth would need a lexer-level notion of nesting that skips
+strings and comments); and the 2 MiB clause is frames × frame size, which only the harness can
+measure (C16 stream: ladders 1..64 / 128 on a 2 MiB thread; stack probe: 40 000 / 100 000 minus signs). -/
 theorem parse_depth_partial (s : List Char) (d : Nat) (h : nest s < d) :
     File.parseD d s ≠ .fuel ∧ File.parseD d s = File.parse s := by
   have h1 : File.parseD d s ≠ .fuel := (good_fileD d).no_fuel h
@@ -60,25 +60,27 @@ theorem parse_depth_partial (s : List Char) (d : Nat) (h : nest s < d) :
 theorem budget_irrelevant (s : List Char) (d d' : Nat) (hle : d ≤ d') (h : File.parseD d s ≠ .fuel) :
     File.parseD d' s = File.parseD d s := ext_fileD hle s h
 
-/-- `IntConstant::parse` opens one frame per leading `-`: a chain of `n` minus signs needs more
-than `n` frames, whatever follows — call depth is not bounded by bracket nesting (finding DI2;
-the harness shows the real parser exhausting a 2 MiB stack on such a document of nesting 0). -/
-theorem minus_chain_depth_counterexample (n d : Nat) (r : List Char) (h : d ≤ n) :
-    IntConstant.parse d (List.replicate n '-' ++ r) = .fuel := by
-  induction d generalizing n with
-  | zero => rfl
-  | succ d ih =>
-    cases n with
-    | zero => omega
-    | succ m =>
-      have := ih m (by omega)
-      simp [IntConstant.parse, List.replicate_succ, alt, skip, andThen, tag, stripPrefix, pmapChecked, this, PR.bind]
+/-- Since fix 4f1981f (was finding DI2) `IntConstant::parse` accepts at most one sign and does not call
+itself: a run of two or more `-` is rejected after looking at two characters, whatever follows. -/
+theorem minus_run_rejected (n : Nat) (r : List Char) :
+    IntConstant.parse (List.replicate (n + 2) '-' ++ r) = .err := by
+  have hu : ∀ x, IntConstant.unsigned ('-' :: x) = .err := by
+    intro x
+    simp [IntConstant.unsigned, alt, skip, andThen, tag, stripPrefix, PR.bind, mapRes, digit1, takeWhile1, isDecDigit]
+  simp [IntConstant.parse, List.replicate_succ, alt, skip, andThen, tag, stripPrefix, pmapChecked, hu, PR.bind]
 
-/-- …and at document level, on a concrete witness: six frames do not suffice for six minus signs
-although the text contains no bracket at all. -/
-theorem minus_chain_document_counterexample :
-    (File.parseD 6 cs!"const i64 c = ------7").isFuel = true ∧
-    (File.parseD 9 cs!"const i64 c = ------7").isOk = true := by
+/-- …and a document with a run of `n` minus signs needs no recursion budget at all: one frame suffices
+(minus signs are not nesting characters any more). -/
+theorem minus_run_needs_no_depth (n : Nat) :
+    File.parseD 1 (cs!"const i64 c = " ++ (List.replicate n '-' ++ ['7'])) ≠ .fuel := by
+  refine (parse_depth_partial _ 1 ?_).1
+  have : nest (List.replicate n '-') = 0 := by
+    unfold nest; rw [List.countP_replicate]; simp [isNestChar]
+  rw [nest_append, nest_append, this]
+  decide
+
+theorem minus_run_document :
+    (File.parse cs!"const i64 c = ------7").isErr = true ∧ (File.parse cs!"const i64 c = -7").isOk = true := by
   constructor <;> decide
 
 /-! non-vacuity -/
